@@ -20,6 +20,7 @@ pub struct PendingGet {
 pub struct ClientRig {
     pub exec: Exec,
     pub client: Client,
+    pub network: Network,
     net_rx: mpsc::Receiver<NetworkSwarmCmd>,
     _local_rx: mpsc::Receiver<LocalSwarmCmd>,
     pub pending: Vec<PendingGet>,
@@ -34,8 +35,8 @@ impl ClientRig {
         let kp = rigs::fixtures::ed_keypair(50);
         let peer = libp2p::PeerId::from(kp.public());
         let network = Network::new(net_tx, local_tx, peer, kp);
-        let client = Client::verif_new(network, ant_evm::EvmNetwork::ArbitrumOne);
-        ClientRig { exec, client, net_rx, _local_rx: local_rx, pending: vec![], gets_seen: 0 }
+        let client = Client::verif_new(network.clone(), ant_evm::EvmNetwork::ArbitrumOne);
+        ClientRig { exec, client, network, net_rx, _local_rx: local_rx, pending: vec![], gets_seen: 0 }
     }
 
     /// Poll every runnable task (FIFO) until none is runnable, collecting the reads the client asks for.
@@ -94,4 +95,23 @@ impl ClientRig {
             let _ = p.reply.send(reply);
         }
     }
+}
+
+/// A split-result map whose iteration order is exactly the order of `records`. std's HashMap order is a
+/// function of the map's random state: build maps until one iterates in the wanted order (the code under test
+/// iterates that same map instance). None if that did not happen within the attempt budget.
+pub fn result_map_in_order(records: &[Record]) -> Option<std::collections::HashMap<xor_name::XorName, (Record, std::collections::HashSet<libp2p::PeerId>)>> {
+    let want: Vec<xor_name::XorName> = records.iter().map(|r| xor_name::XorName::from_content(&r.value)).collect();
+    for _ in 0..500_000 {
+        let mut m = std::collections::HashMap::new();
+        for (i, r) in records.iter().enumerate() {
+            let mut holders = std::collections::HashSet::new();
+            holders.insert(rigs::fixtures::peer_id(60 + i as u8));
+            m.insert(xor_name::XorName::from_content(&r.value), (r.clone(), holders));
+        }
+        if m.keys().cloned().collect::<Vec<_>>() == want {
+            return Some(m);
+        }
+    }
+    None
 }
